@@ -13,7 +13,7 @@ PROPS["C14"] = dict(
          "DSP interrupt = ICU request bit 14 (0x200, acknowledged through 0x202), host interrupts = handler logs. After EVERY op all "
          "observables of both directions are compared with the independent model: ready flags (host API, 0x0D6, 0x0D8), peeked values, "
          "semaphore, mask, signal flag == ((semaphore & ~mask) != 0), interrupt on every rise / none while the flag stays 0, data "
-         "interrupt exactly when enabled. distinct_nontrivial = distinct (op, ready/disable state or signal-flag edge rise/fall/stay0/stay1) keys",
+         "interrupt exactly when enabled. Runs of 240 / 65 520 unread writes followed by 20 forced writes walk the count of consecutive unread writes through 256 / 65 536. reentrant job: every flag-raising call goes through an edge-predicting wrapper, also from inside the handler (styles incl. mask-all/service-one/unmask). distinct_nontrivial = distinct (op, ready/disable state or signal-flag edge rise/fall/stay0/stay1) keys",
     floors={
         Q: {"ops": 400000, "sem_rise": 15000, "sem_rise_by_unmask": 5000, "sem_stay0": 300000, "data_irq_expected": 30000,
             "data_irq_suppressed": 15000, "icu14_data_expected": 2500, "icu14_data_suppressed": 2500, "icu14_raise_observable": 4000,
